@@ -225,6 +225,114 @@ func TestC17Mmap(t *testing.T) {
 
 // ---------------------------------------------------------------------------------------------
 
+// sparseBS are page-multiple block sizes (segments of 134 MB .. 4.8 GB) run on the sparse buffer; 3, 5 and 6 pages
+// are not powers of two, so blocks-per-segment (8*bs) is not a power of two either.
+var sparseBS = []int{4096, 8192, 12288, 20480, 24576}
+
+// interesting in-segment index values: byte and 2^15 / 2^16 boundaries
+var sparseMarks = []int{0, 7, 8, 4095, 4096, 32767, 32768, 32769, 40000, 65535, 65536, 65537, 69999}
+
+func genSparseCase(t *rapid.T) Case {
+	c := Case{Backend: "sparse", NoStamp: true}
+	c.BS = rapid.SampledFrom(sparseBS).Draw(t, "bs")
+	c.Segs = rapid.IntRange(1, 2).Draw(t, "segs")
+	c.Fit = rapid.Bool().Draw(t, "fit")
+	if !c.Fit {
+		c.Over = rapid.SampledFrom([]int{0, 0, 1, c.BS, 5 * c.BS}).Draw(t, "over")
+	}
+	per := c.BS * 8
+	count := per * c.Segs
+	idxGen := rapid.OneOf(
+		rapid.Custom(func(t *rapid.T) int {
+			return rapid.SampledFrom(sparseMarks).Draw(t, "mark") + rapid.IntRange(-2, 2).Draw(t, "d")
+		}),
+		rapid.Custom(func(t *rapid.T) int {
+			return rapid.SampledFrom([]int{per, per + 32768, per + 65536, count}).Draw(t, "segMark") + rapid.IntRange(-3, 2).Draw(t, "d")
+		}),
+		rapid.IntRange(0, 70000),
+		rapid.IntRange(0, count-1),
+	)
+	op := rapid.Custom(func(t *rapid.T) Op {
+		switch k := rapid.IntRange(0, 99).Draw(t, "kind"); {
+		case k < 25:
+			return Op{K: "a"}
+		case k < 33:
+			return Op{K: "fill", N: rapid.IntRange(0, 40).Draw(t, "n")}
+		case k < 63:
+			return Op{K: "fi", N: max(0, idxGen.Draw(t, "idx"))}
+		case k < 73:
+			return Op{K: "fa", N: rapid.OneOf(rapid.IntRange(-3, 3), rapid.IntRange(0, 1<<17)).Draw(t, "n")}
+		case k < 78:
+			return Op{K: "ff", N: max(0, idxGen.Draw(t, "idx"))}
+		case k < 81:
+			return Op{K: "fo", N: rapid.IntRange(0, 9).Draw(t, "n")}
+		case k < 83:
+			return Op{K: "fn", N: rapid.IntRange(0, 9).Draw(t, "n")}
+		case k < 90:
+			return Op{K: "b", N: max(0, idxGen.Draw(t, "idx"))}
+		case k < 92:
+			return Op{K: "bo", N: rapid.IntRange(-3, 3).Draw(t, "n")}
+		case k < 95:
+			return Op{K: "drain", N: rapid.IntRange(0, 20).Draw(t, "n")}
+		default:
+			return Op{K: "r"}
+		}
+	})
+	// a bulk arrange first, so that the high indexes are reached cheaply
+	var first int
+	switch k := rapid.IntRange(0, 19).Draw(t, "bulk"); {
+	case k < 2:
+		first = rapid.IntRange(0, 100).Draw(t, "bulkN")
+	case k < 8:
+		first = rapid.SampledFrom([]int{32768, 32769, 33000, 40001}).Draw(t, "bulkN")
+	case k < 16:
+		first = rapid.SampledFrom([]int{65536, 65537, 66000, 70000}).Draw(t, "bulkN")
+	case k < 18:
+		first = rapid.IntRange(0, 70000).Draw(t, "bulkN")
+	case k < 19:
+		first = per + rapid.IntRange(0, 70000).Draw(t, "bulkN") // into the second segment, if there is one
+	default:
+		first = -1 - rapid.IntRange(0, 3).Draw(t, "leave") // (nearly) everything
+	}
+	c.Ops = append([]Op{{K: "fill", N: first}}, genOps(t, op, 40)...)
+	return c
+}
+
+// TestC17Sparse runs page-multiple block sizes, including those that are not a power of two, with tens of
+// thousands of allocated blocks on a buffer that materialises only the touched blocks.
+func TestC17Sparse(t *testing.T) {
+	st := vstat.For(prop)
+	if shard, _ := vstat.Shard(); shard == 0 {
+		// grid: fill to 70000, free one block at each mark, allocate again, free its neighbours, allocate, reopen, allocate
+		n := 0
+		reported := map[string]bool{}
+		for _, bs := range sparseBS {
+			for _, m := range sparseMarks {
+				c := Case{BS: bs, Segs: 1, Fit: true, Backend: "sparse", NoStamp: true, Ops: []Op{
+					{K: "fill", N: 70000}, {K: "fi", N: m}, {K: "a"}, {K: "fi", N: m}, {K: "fi", N: m + 1}, {K: "fill", N: 3},
+					{K: "b", N: m}, {K: "fi", N: m}, {K: "r"}, {K: "fill", N: 2}, {K: "ff", N: m}}}
+				info, v := Run(c)
+				if v != nil && !reported[v.Sig] {
+					reported[v.Sig] = true
+					name := "TestC17Sparse." + strings.TrimPrefix(v.Sig, "blocks:")
+					t.Run(name, func(t *testing.T) { st.Report(t, name, c, v) })
+				}
+				record(c, info)
+				n++
+			}
+		}
+		st.SetExhaustive("sparse_grid", map[string]any{"block_sizes": sparseBS, "freed_indexes": sparseMarks, "allocated": 70000, "cases": n})
+	}
+	t.Run("rapid", func(t *testing.T) {
+		rapid.Check(t, func(t *rapid.T) {
+			c := genSparseCase(t)
+			info, v := Run(c)
+			st.Report(t, "TestC17Sparse", c, v)
+			record(c, info)
+		})
+	})
+}
+
 // TestC17Big covers the page-sized block sizes on a single segment (thorough tier only: 33 and 134 MiB buffers).
 func TestC17Big(t *testing.T) {
 	if !vstat.Thorough() && vstat.ReplayPath() == "" {
@@ -390,7 +498,7 @@ var concGen = rapid.Custom(func(t *rapid.T) ConcCase {
 func TestC17Concurrent(t *testing.T) {
 	st := vstat.For(prop)
 	base := vstat.EnvInt("VERIF_SHARDSEED", 1) % 1000000007
-	n := vstat.Pick(250, 2500)
+	n := vstat.Pick(250, 1500)
 	for i := 0; i < n; i++ {
 		c := concGen.Example(base*4096 + i)
 		var info ConcInfo
